@@ -1,4 +1,5 @@
 import Feox.Props.C10
+import Feox.Fmt.JournalOpen
 import Feox.Fmt.WriteRead
 import Feox.Fmt.Commit
 import Feox.Fmt.CleanCheck
